@@ -56,6 +56,40 @@ def _sweep_alternatives(F, body, cls):
             continue
         a_, b_ = d[3]["rv"]["a"], d[3]["rv"]["b"]
         tys = [body.locals[o["p"]["l"]]["ty"]["s"] if o["k"] in ("copy", "move") else "" for o in (a_, b_)]
+        if all(x == "usize" for x in tys):
+            # the same walk with an index instead of a pointer: `let mut i = 0; while i (+ a) REL buckets() (- b) { ..; i += WIDTH }`
+            def iside(o):
+                c = cls(body, o)
+                if c == "BUCKETS":
+                    return ("end", 0)
+                if c in ("Sub(BUCKETS,CONST:%d)" % W, "SUB(BUCKETS,CONST:%d)" % W):
+                    return ("end", W)
+                if c == "MASK":
+                    return ("end", 1)
+                if c.startswith("PHI(") and "CONST:0" in c:
+                    return ("walk", 0)
+                if c.startswith("ADD(PHI(") and c.endswith(",CONST:%d)" % W):
+                    return ("walk", W)
+                return (None, 0)
+            sa, sb = iside(a_), iside(b_)
+            if {sa[0], sb[0]} == {"walk", "end"}:
+                op2 = d[3]["rv"]["op"]
+                if sa[0] == "end":
+                    sa, sb = sb, sa
+                    op2 = {"Lt": "Gt", "Le": "Ge", "Gt": "Lt", "Ge": "Le"}[op2]
+                zero = [bb for v, bb in t["targets"] if v == 0]
+                cont = [x for x in body.nsucc[i] if x not in zero]
+                loops = [blocks for h, blocks in body.natural_loops() if i in blocks]
+                if not (bool(loops) and any(x in loops[0] for x in cont)):
+                    op2 = {"Lt": "Ge", "Le": "Gt", "Gt": "Le", "Ge": "Lt"}[op2]
+                a, b = sa[1], sb[1]
+                good = (op2 == "Lt" and a + b == 0) or (op2 == "Le" and a + b == W)
+                if op2 in ("Lt", "Le"):
+                    if good:
+                        return True, "the index walk over the control groups covers 0 .. buckets() (guard: i + %d %s buckets() - %d)" % (a, "<" if op2 == "Lt" else "<=", b), i
+                    return False, ("an index walk that must visit every control group stops early (it continues while i + %d %s buckets() - %d): the last group is never converted, "
+                                   "so its tombstones are rehashed as if they were live elements" % (a, "<" if op2 == "Lt" else "<=", b)), i
+            continue
         if not all(x.startswith("*") for x in tys):
             continue
         ka, kb = expr_key(body, a_), expr_key(body, b_)
